@@ -18,13 +18,23 @@ pub fn gen_mode_graph_case(d: &mut Dec, thorough: bool, lookaheads: usize) -> Ca
     }
     .with_lookaheads(lookaheads)
     .with_modes(4);
+    // three quarters of the mode graphs have at least two modes
+    let p = GenParams {
+        min_modes: if d.chance(192) { 2 } else { 1 },
+        ..p
+    };
     let modes = gen::gen_modes(d, &p);
     let mut case = Case {
         modes,
         ..Case::default()
     };
     let model = case.model();
-    case.inputs.push(gen::gen_input(d, &model, p.max_input_chars));
+    let mut input = gen::gen_input(d, &model, p.max_input_chars);
+    if d.bool() {
+        // longer inputs let histories travel through several modes
+        input.push_str(&gen::gen_input(d, &model, p.max_input_chars));
+    }
+    case.inputs.push(input);
     case
 }
 
